@@ -18,20 +18,23 @@
   "However they were built": model values carry no construction history, so `eqv_iff` says it;
   that the CODE's values agree with the model's whatever the history is the correspondence run.
 
-  PARTIAL — "repr evaluates back to an equal value".
-  Proved: `repr_inj_partial` & co — the printed constructor syntax, as a SYNTAX TREE (`RT`), determines
-  the value up to `==` (neither repr short-cut, nor the `.dagger()` suffix, nor the optional `z=` /
-  `data=` arguments, nor the derived `Swap`/`Cup`/`Cap` forms conflate distinct values).
-  NOT proved: `ReprStringInj` — the statement on the flat STRING.  It is reduced
-  (`repr_inj_of_render`) to `RenderDeterminesTree`: the string determines the syntax tree, which
-  needs token hygiene (every name/data token is the `repr` of a Python value that the parser reads
-  back as ONE expression: balanced brackets/quotes, no top-level comma, not itself of the form
-  `Ob(…)`, distinct values have distinct tokens) and is left as an unproved `def … : Prop`.
-  That, and that Python's `eval` rebuilds an equal value from the string, is runtime behaviour of
-  the interpreter: the check executes `eval(repr(v)) == v` on every generated value (oracle).
+  "Their printed repr is constructor syntax that evaluates back to an equal value":
+  Proved — `repr_inj` (and `val_repr_inj`, `sum_repr_inj`, `reprBox_inj`, `reprTy_inj`): the printed
+  STRING of a well-typed value determines the value up to `==`, under the explicit token-hygiene
+  hypothesis `TokensSafe`: every name token, and every `data` token other than `None`, is non-empty
+  and contains none of the six characters `, ( ) [ ] =` (true of the reprs of identifier-like
+  strings such as `'abc'`, of ints and of floats).  It goes in two steps: the string determines the
+  printed syntax tree (`RT.render_inj`, unique decoding, Proofs/ReprString.lean), and the tree
+  determines the value (`repr_inj_tree`: neither repr short-cut, nor the `.dagger()` suffix, nor
+  the optional `z=` / `data=` arguments, nor the derived `Swap`/`Cup`/`Cap` forms conflate values).
+  PARTIAL — not proved: (i) values whose `data` token itself contains brackets or commas (list- or
+  dict-valued data) — `ReprInjAnyData` is kept as an unproved `def … : Prop`; for those only the
+  tree-level theorem `repr_inj_tree` holds; (ii) that Python's `eval` rebuilds an equal value
+  from the string is runtime behaviour of the interpreter.  Both rest on the oracle, which
+  executes `eval(repr(v)) == v` on every generated value.
   Bubbles are not modelled (finding F8 lives in the oracle).
 -/
-import Proofs.Eq
+import Proofs.ReprString
 
 namespace DV.C03
 open DV
@@ -120,22 +123,41 @@ theorem reprTy_monoidal (t : Ty) (h : ∀ x ∈ t, x.z = 0) : reprTy t = reprTyM
 
 /-! ### The printed form loses nothing -/
 
-/-- `repr` of a type determines the type. -/
-theorem reprTy_inj_partial (s t : Ty) (h : reprTTy s = reprTTy t) : s = t := reprTTy_inj h
+/-- **`repr` is injective up to `==`** on well-typed diagrams over boxes the Python classes can
+    produce, with hygienic tokens: diagrams that print alike are equal. -/
+theorem repr_inj (a b : Diagram) (ha : a.WF) (hb : b.WF) (hca : a.Canon) (hcb : b.Canon)
+    (hta : a.TokensSafe) (htb : b.TokensSafe) (h : reprDiagram a = reprDiagram b) :
+    a.eqv b = true := DV.repr_inj ha hb hca hcb hta htb h
 
-/-- `repr` of a box determines the box. -/
-theorem reprBox_inj_partial (a b : Box) (ha : a.Canon) (hb : b.Canon)
-    (h : reprTBox a = reprTBox b) : a = b := reprTBox_inj ha hb h
+/-- … also across box instances and plain diagrams, … -/
+theorem val_repr_inj (u v : Val) (hu : u.WF) (hv : v.WF) (hcu : u.toDiagram.Canon)
+    (hcv : v.toDiagram.Canon) (htu : u.toDiagram.TokensSafe) (htv : v.toDiagram.TokensSafe)
+    (h : u.repr = v.repr) : u.eqv v = true := Val.repr_inj hu hv hcu hcv htu htv h
 
-/-- `repr` of a well-typed diagram determines it up to `==` (syntax-tree level). -/
-theorem repr_inj_partial (a b : Diagram) (ha : a.WF) (hb : b.WF) (hca : a.Canon) (hcb : b.Canon)
+/-- … for sums, boxes and types. -/
+theorem sum_repr_inj (a b : Sum) (ha : a.WF) (hb : b.WF) (hca : ∀ t ∈ a.terms, t.Canon)
+    (hcb : ∀ t ∈ b.terms, t.Canon) (hta : a.TokensSafe) (htb : b.TokensSafe)
+    (h : reprSum a = reprSum b) : a.eqv b = true := reprSum_inj ha hb hca hcb hta htb h
+
+theorem reprBox_inj (a b : Box) (ha : a.Canon) (hb : b.Canon) (hta : a.TokensSafe)
+    (htb : b.TokensSafe) (h : reprBox a = reprBox b) : a = b := DV.reprBox_inj ha hb hta htb h
+
+theorem reprTy_inj (s t : Ty) (hs : Ty.TokensSafe s) (ht : Ty.TokensSafe t)
+    (h : reprTy s = reprTy t) : s = t := DV.reprTy_inj hs ht h
+
+/-- Step 1: the printed string of a hygienic syntax tree determines the tree. -/
+theorem render_inj (s t : RT) (hs : s.Good) (ht : t.Good) (h : s.render = t.render) : s = t :=
+  RT.render_inj hs ht h
+
+/-- Step 2 (no token hypothesis at all): the printed syntax tree determines the value up to `==`. -/
+theorem repr_inj_tree (a b : Diagram) (ha : a.WF) (hb : b.WF) (hca : a.Canon) (hcb : b.Canon)
     (h : reprTDiagram a = reprTDiagram b) : a.eqv b = true := reprTDiagram_inj ha hb hca hcb h
 
-theorem val_repr_inj_partial (u v : Val) (hu : u.WF) (hv : v.WF) (hcu : u.toDiagram.Canon)
+theorem val_repr_inj_tree (u v : Val) (hu : u.WF) (hv : v.WF) (hcu : u.toDiagram.Canon)
     (hcv : v.toDiagram.Canon) (h : u.reprT = v.reprT) : u.eqv v = true :=
   Val.reprT_inj hu hv hcu hcv h
 
-theorem sum_repr_inj_partial (a b : Sum) (ha : a.WF) (hb : b.WF) (hca : ∀ t ∈ a.terms, t.Canon)
+theorem sum_repr_inj_tree (a b : Sum) (ha : a.WF) (hb : b.WF) (hca : ∀ t ∈ a.terms, t.Canon)
     (hcb : ∀ t ∈ b.terms, t.Canon) (h : reprTSum a = reprTSum b) : a.eqv b = true :=
   reprTSum_inj ha hb hca hcb h
 
@@ -144,28 +166,14 @@ theorem canon_ops (a b d : Diagram) (ha : a.WF) (hb : b.WF) (hca : a.Canon) (hcb
     (a.then b = .ok d → d.Canon) ∧ (a.tensor b = .ok d → d.Canon) ∧ a.dagger.Canon :=
   ⟨Diagram.Canon.then hca hcb, Diagram.Canon.tensor ha hb hca hcb, Diagram.Canon.dagger ha hca⟩
 
-/-- The missing piece, stated exactly: for diagrams whose name/data tokens satisfy `ok`, the
-    rendered STRING determines the printed syntax tree.  For Python the intended `ok` is: the token
-    is the `repr` of a value that the parser reads back as ONE expression (balanced brackets and
-    quotes, no top-level `,` or `=`, no trailing `.dagger()`), is not itself of the form `Ob(…)`
-    (else `Ty(Ob('a', z=1))` is ambiguous between an object named by an `Ob` and an adjoint), and
-    distinct values have distinct tokens.  NOT proved. -/
-def RenderDeterminesTree (ok : String → Prop) : Prop :=
-  ∀ a b : Diagram, (reprTDiagram a).AllTok ok → (reprTDiagram b).AllTok ok →
-    reprDiagram a = reprDiagram b → reprTDiagram a = reprTDiagram b
-
-/-- Full statement (NOT proved; rests on `RenderDeterminesTree` + the `eval(repr(v)) == v` oracle):
-    the printed STRING of a well-typed diagram determines it up to `==`. -/
-def ReprStringInj (ok : String → Prop) : Prop :=
+/-- Full statement for ARBITRARY data tokens (e.g. list- or dict-valued `data`, whose repr has
+    brackets and commas of its own): NOT proved.  `ok` is the class of admitted tokens; for Python
+    the intended one is "the repr of a value that parses back as one expression, and distinct
+    values have distinct reprs".  Rests on the `eval(repr(v)) == v` oracle. -/
+def ReprInjAnyData (ok : String → Prop) : Prop :=
   ∀ a b : Diagram, a.WF → b.WF → a.Canon → b.Canon →
     (reprTDiagram a).AllTok ok → (reprTDiagram b).AllTok ok →
     reprDiagram a = reprDiagram b → a.eqv b = true
-
-/-- The reduction that IS proved: the lexical/parsing step is the only thing missing. -/
-theorem repr_inj_of_render (ok : String → Prop) (h : RenderDeterminesTree ok) :
-    ReprStringInj ok := by
-  intro a b ha hb hca hcb ta tb e
-  exact reprTDiagram_inj ha hb hca hcb (h a b ta tb e)
 
 /-! ### Non-vacuity -/
 
@@ -188,5 +196,28 @@ example : reprDiagram F.dagger =
     "Box('f', Ty('x'), Ty(Ob('y', z=-1), Ob('y', z=-1)), data=[1, 2]).dagger()" := by rfl
 example : reprDiagram (Diagram.id [x, yl]) = "Id(Ty('x', Ob('y', z=-1)))" := by rfl
 example : (Val.box f).repr = (Val.diag F).repr := by rfl
+
+-- the hypotheses of `repr_inj` are met by a concrete three-box rigid diagram with a daggered box
+-- and numeric data
+private def h : Box := { name := "'h'", dom := [x], cod := [yl, yl], data := "2.5" }
+private def D3 : Diagram :=
+  ⟨[x], [yl, yl], [h, h.dag, h], [0, 0, 0],
+    ⟨[x], [yl, yl], [⟨[], h, []⟩, ⟨[], h.dag, []⟩, ⟨[], h, []⟩]⟩⟩
+example : D3.WF :=
+  ⟨rfl, rfl, rfl, rfl, by simp [LArrow.WF, Chain, D3, Layer.dom, Layer.cod, h, Box.dag]⟩
+example : D3.Canon := by intro b hb; simp [D3] at hb; rcases hb with rfl | rfl | rfl <;> trivial
+example : D3.TokensSafe := by
+  have hx : Ty.TokensSafe [x] := by intro o ho; simp at ho; subst ho; exact lit_safe "'x'"
+  have hy : Ty.TokensSafe [yl, yl] := by intro o ho; simp at ho; subst ho; exact lit_safe "'y'"
+  refine ⟨hx, hy, ?_⟩
+  intro b hb
+  simp [D3] at hb
+  rcases hb with rfl | rfl | rfl
+  · exact ⟨lit_safe "'h'", .inr (lit_safe "2.5"), hx, hy⟩
+  · exact ⟨lit_safe "'h'", .inr (lit_safe "2.5"), hy, hx⟩
+  · exact ⟨lit_safe "'h'", .inr (lit_safe "2.5"), hx, hy⟩
+-- list-valued data is outside the hygiene hypothesis (it has a comma and brackets of its own)
+example : ¬ SafeTok "[1, 2]" := by
+  intro hs; have := hs.2 '[' (by decide); revert this; decide
 
 end DV.C03
